@@ -229,6 +229,19 @@ def scenario(w):
                   max_imfs=max_imfs, nphases=nph, imf_opts=imf_opts)
         desc.update(mask_freqs=mf, mask_amp=ma, mask_amp_mode=amode, mask_step_factor=step, max_imfs=max_imfs)
 
+    # ---- history: an earlier masked extraction with other options and the same number of workers ----------------
+    if ch.flag('prelude_other_options', 1, 4):
+        C.plain_poolcfg(w)
+        try:
+            S.get_next_imf_mask(x[:96].copy(), 0.21, 0.5 * sd_x, nphases=2, nprocesses=nproc,
+                                imf_opts={'sd_thresh': 0.35, 'env_step_size': 0.7})
+        except Exception as e:
+            C.reraise_if_harness(e)
+        w.probe('prelude_call')
+        desc['prelude'] = True
+        del w.stage_trace[:]
+        del w.batches[:]
+
     # ---- reference execution: one worker, plain schedule -----------------------------------------
     C.plain_poolcfg(w)
     w.log('reference.begin')
